@@ -296,7 +296,40 @@ def run(run):
                 run.ok("C06.P1", "accepted catalogue fragment is re-offset by the span's top-left", where(t))
             else:
                 run.bad("C06.P1", "not-reoffset", where(t), "a fragment pushed to `accepted` is not `lookup_result.absolute_position(self.bounds().0)`: %s" % detail)
-        run.floor("C06.P1", "accepted_branches", len(pushes), 4)
+        n_branches = len(pushes)
+        if len(pushes) == 1 and n_ok == 0:
+            # one construction site fed by a combinator chain / helper (`lookup_a().map(place).or_else(|| lookup_b().map(place))..`):
+            # the fragment handed to FragmentSpan::new is expanded into its alternatives; each must be a lookup result
+            # re-offset by the span's top-left, and all four lookups must occur
+            from ..exprs import expand_combinators
+            bid, t = pushes[0]
+            from ..exprs import inline_calls as _inl
+            fr = strip(simplify(expand_combinators(prog, simplify(_inl(prog, ex.operand(t["args"][1]), keep=r"absolute_position$|circle_map::endorse_\w+_span$|span::Span::bounds$", depth=3)), depth=8)))
+            alts_ = [strip(a) for a in (fr[1] if fr[0] == "phi" else [fr])]
+            lookups = set()
+            good_alts = 0
+            for a in alts_:
+                if a[0] == "agg" and a[2] == "None":
+                    continue
+                absn = []
+                mentions(a, lambda z: z[0] == "call" and z[1] in aps.values() and absn.append(z) and False)
+                if len(absn) != 1:
+                    continue
+                src, off = absn[0][2][0], strip(absn[0][2][1])
+                lk = []
+                mentions(src, lambda z: z[0] == "call" and re.search(r"circle_map::endorse_\w+_span$", z[1]) and lk.append(z[1]) and False)
+                tl_ok = mentions(off, lambda z: z[0] == "call" and z[1].endswith("span::Span::bounds") and strip(z[2][0]) == ("param", 1, ())) and off[0] == "field" and off[2][-1:] == ("0",)
+                if len(set(lk)) == 1 and tl_ok:
+                    lookups.add(lk[0])
+                    good_alts += 1
+            if len(lookups) >= 4 and good_alts == len([a for a in alts_ if not (a[0] == "agg" and a[2] == "None")]):
+                # retract the shape complaint of the single site: it is decided here
+                run.violations[:] = [v for v in run.violations if not v["key"].endswith("/not-reoffset")]
+                for e_ in run.evals:
+                    if e_["rule"] == "C06.P1" and e_["verdict"] == "VIOLATED" and e_["instance"] == "not-reoffset":
+                        e_["verdict"], e_["note"] = "ok", "decided through the combinator chain: %d lookups, each re-offset by bounds().0" % len(lookups)
+                n_branches = len(lookups)
+        run.floor("C06.P1", "accepted_branches", n_branches, 4)
     afs = prog.method("abs_fragment_spans", r"FragmentBuffer$", "")
     if afs:
         inner = [c2 for c in prog.closures_of(afs) for c2 in prog.closures_of(c)]
